@@ -605,7 +605,7 @@ pub fn gen_c13(rng: &mut Rng) -> Case {
   let mut target: Vec<String> = root_rel[..root_rel.len() - depth_up].iter().map(|s| s.to_string()).collect();
   target.push("outside".into());
   target.push("secret".into());
-  let kind = rng.below(6);
+  let kind = rng.below(10);
   let ups = vec!["..".to_string(); depth_up];
   let path: Vec<String> = match kind {
     0 => ups.iter().cloned().chain(["outside".to_string(), "secret".to_string()]).collect(),
@@ -613,6 +613,12 @@ pub fn gen_c13(rng: &mut Rng) -> Case {
     2 => vec![format!("{}/outside/secret", ups.join("/"))],
     3 => vec![format!("sub/../{}/outside/secret", ups.join("/"))],
     4 => vec![".".to_string()].into_iter().chain(ups.iter().cloned()).chain(["outside".to_string(), "secret".to_string()]).collect(),
+    // separators of other platforms and encodings: on this platform these are ordinary file-name characters, so the
+    // listed file simply does not exist inside the root - unless something re-interprets them on the way
+    6 => vec![format!("{}\\outside", ups.join("\\")), "secret".to_string()],
+    7 => vec![format!("{}\\outside\\secret", ups.join("\\"))],
+    8 => vec![format!("sub\\..\\{}\\outside\\secret", ups.join("\\"))],
+    9 => vec![ups.iter().map(|_| *rng.pick(&["..%2f", "..%2F", "%2e%2e/", "..\u{2215}", "..\u{ff0f}", "..;"])).collect::<Vec<_>>().join("") + "outside", "secret".to_string()],
     _ => {
       // absolute component: resolved at run time by `observe_c13`
       vec!["<ABS>".to_string()]
